@@ -123,13 +123,27 @@ def gen_stream(rng, kind):
     return data
 
 
-def gen_fielded(rng):
+def gen_fielded(rng, ragged=False):
     delim = rng.choice([b"\t", b",", b" "])
-    nf = rng.randrange(3, 6)
     spec = rng.choice(["2", "1", "3", "1,3", "2-3", "2-", "1-2", "-2", "1,3-"])
     n = rng.choice([5, 30, 200])
     vals = [b"a", b"b", b"c", b"dd", b"e f" if delim != b" " else b"ef"]
-    lines = [delim.join(rng.choice(vals) for _ in range(nf)) for _ in range(n)]
+    if not ragged:
+        nf = rng.randrange(3, 6)
+        lines = [delim.join(rng.choice(vals) for _ in range(nf)) for _ in range(n)]
+    else:
+        # RAGGED rows: the same selected key once in the middle of a line and once at its end, rows with
+        # fewer fields than selected, empty fields, trailing delimiters (empty last field)
+        vals = vals[:3] + [b""]
+        lines = []
+        for _ in range(n):
+            nf = rng.randrange(1, 6)
+            fs = [rng.choice(vals) for _ in range(nf)]
+            lines.append(delim.join(fs))
+        # and explicit pairs: key followed / not followed by further fields
+        k = rng.choice([b"k", b"kk"])
+        lines += [k + delim + b"x", k, b"p" + delim + k, b"p" + delim + k + delim + b"y", k + delim, k + delim + delim + b"z"]
+        rng.shuffle(lines)
     data = b"\n".join(lines) + b"\n"
     return spec, delim, data
 
@@ -177,6 +191,8 @@ def main(argv):
         c.broken.append("build of the repo working tree / hx_dedupe failed: " + blog[-800:])
         return c.finish(rule="build failed")
     c.proofs()
+    if c.tier == "thorough":
+        coqchk(c)
     drv, dlog = build_driver("C01")
     hx = hx_bin("hx_dedupe")
     exe = repo_bin("dedupe")
@@ -190,14 +206,15 @@ def main(argv):
         # ------------------------------------------------------------ single-stream cases
         cases = []          # (bucket, data, backing, args, keyfun for the oracle, (fields, delimhex) for the harness)
         kinds = ["small-alphabet", "dups-at-distance", "binary", "crlf", "long-lines"]
-        reps = 40 if not thorough else 400
+        reps = 100 if not thorough else 400
         for kind in kinds:
             for i in range(reps if kind != "long-lines" else max(4, reps // 8)):
                 cases.append((kind, gen_stream(rng, kind), BACKINGS[(i + len(cases)) % 5], [], None, ("-", "09")))
-        for i in range(reps):
-            spec, delim, data = gen_fielded(rng)
+        for i in range(reps * 2):
+            ragged = i % 2 == 1
+            spec, delim, data = gen_fielded(rng, ragged)
             args = ["-f", spec, "-d", delim.decode()] if delim != b"\t" or rng.random() < 0.5 else ["-f", spec]
-            cases.append(("fields -f %s" % spec, data, BACKINGS[i % 5], args, cut_key(spec, delim), (spec, delim.hex())))
+            cases.append(("fields%s -f %s" % ("-ragged" if ragged else "", spec), data, BACKINGS[i % 5], args, cut_key(spec, delim), (spec, delim.hex())))
         # boundary streams
         z16 = hash0_line(rng)
         fixed = [b"", b"\n", b"\n\n", b"a", b"a\n", b"a\na", b"a\r\na\n", b"a\n\na\n\n", b"\x00\n\x00\n", b"a\rb\na\rb\n",
@@ -205,11 +222,18 @@ def main(argv):
         for i, d in enumerate(fixed):
             for b in (BACKINGS if i < 6 else ["pipe", "file"]):
                 cases.append(("boundary" if z16 not in d else "boundary/line-hashing-to-0", d, b, [], None, ("-", "09")))
+        # partial collisions: distinct lines whose 64-bit hashes agree in the low / high 32 bits must BOTH be kept
+        # (only a full 64-bit collision is excused); found with an independent Python MurmurHash64A
+        partial = murmur_partial_collisions(250000 if not thorough else 1500000, seed=1)
+        for kind_, prs in partial.items():
+            for a_, b_ in prs:
+                cases.append(("partial-collision/" + kind_, a_ + b"\n" + b_ + b"\n" + a_ + b"\n", "pipe", [], None, ("-", "09")))
+                cases.append(("partial-collision/" + kind_, b"x\t" + a_ + b"\ny\t" + b_ + b"\n", "file", ["-f", "2"], cut_key("2", b"\t"), ("2", "09")))
         # -f with a field hashing to 0: the key of `-f 2` is Murmur(field2, seed 1)
         cases.append(("boundary/line-hashing-to-0", b"p\t" + z16 + b"\tq\nr\t" + z16 + b"\ts\nt\tu\tv\n", "pipe", ["-f", "2"], cut_key("2", b"\t"), ("2", "09")))
 
-        model_in = []       # lines for the 3-step model pipeline
         results = []
+        dl = []
         for (bucket, data, backing, args, keyf, hxopt) in cases:
             st, out, err = run_dedupe(exe, data, backing, tmp, args)
             results.append((st, out))
@@ -279,13 +303,50 @@ def main(argv):
                 else:
                     c.broken.append("C01 driver D failed: %s" % e3[-300:])
 
+        # ------------------------------------------------------------ the COMPLETE tool model (options, Fields + Murmur
+        # keys, records, seen-set, writer): nothing is taken from the implementation
+        if drv is not None:
+            tiny = [i for i, cse in enumerate(cases) if len(cse[1]) < 6000]
+            tf = []
+            for i in tiny:
+                args = cases[i][3]
+                spec = args[args.index("-f") + 1] if "-f" in args else "1-"
+                dlm = args[args.index("-d") + 1].encode() if "-d" in args else b"\t"
+                tf.append("TF %s %s %s" % (spec.encode().hex(), dlm.hex(), hexd(cases[i][1])))
+            rc, fo, e5 = run_lines(drv, tf, timeout=900)
+            if len(fo) != len(tf):
+                c.broken.append("C01 driver TF failed: %s" % e5[-300:])
+            else:
+                dis = []
+                for i, mo in zip(tiny, fo):
+                    st, out = results[i]
+                    impl = "OK " + hexd(out) if st == 0 else "STATUS %s" % st
+                    if mo != impl:
+                        dis.append((cases[i], mo, impl))
+                c.cov["traces_validated_against_impl"] += len(tiny)
+                c.cov["distribution"]["(complete-model runs: options+Fields+Murmur+seen-set)"] = len(tiny)
+                if dis:
+                    cs, mo, impl = min(dis, key=lambda d: len(d[0][1]))
+                    c.broken.append("tool correspondence COMPLETE dedupe model (Fields+Murmur+seen-set) vs bin/dedupe: %d disagreement(s); smallest: stdin=%r args=%r model=%s impl=%s" % (
+                        len(dis), cs[1][:100], cs[3], mo[:200], impl[:200]))
+
+        # ------------------------------------------------------------ memory safety of the class under ASan/UBSan
+        if thorough and drv is not None and not c.violations:
+            asan_lines(c, "hx_dedupe", dl[:3000], "(Dedupe/FieldDedupe over the generated lines)")
+
         # ------------------------------------------------------------ parallel mode
         pcases = []
-        preps = 60 if not thorough else 600
+        preps = 150 if not thorough else 600
         for i in range(preps):
             n = rng.choice([1, 3, 10, 40, 200])
-            a = [b"e%d" % rng.randrange(max(1, n // rng.choice([1, 2, 4]))) for _ in range(n)]
-            b = [b"f%d" % rng.randrange(max(1, n // rng.choice([1, 2, 4]))) for _ in range(n)]
+            if i % 3 == 2:
+                # the same text on BOTH sides: identical source/target pairs, a target equal to an earlier source line
+                pool = [b"t%d" % k for k in range(max(2, n // 2))]
+                a = [rng.choice(pool) for _ in range(n)]
+                b = [rng.choice(pool) if rng.random() < 0.7 else x for x in a]
+            else:
+                a = [b"e%d" % rng.randrange(max(1, n // rng.choice([1, 2, 4]))) for _ in range(n)]
+                b = [b"f%d" % rng.randrange(max(1, n // rng.choice([1, 2, 4]))) for _ in range(n)]
             extra = rng.choice([0, 0, 0, 1, -1])
             if extra == 1:
                 b.append(b"extra")
@@ -293,6 +354,13 @@ def main(argv):
                 b.pop()
             pcases.append((b"".join(x + b"\n" for x in a), b"".join(x + b"\n" for x in b), []))
         pcases.append((b"", b"", []))
+        for kind_, prs in partial.items():
+            for a_, b_ in prs[:2]:
+                pcases.append((a_ + b"\n" + b_ + b"\n", b"1\n2\n", []))
+                pcases.append((b"1\n2\n", a_ + b"\n" + b_ + b"\n", []))
+        pcases.append((b"same\n", b"same\n", []))                         # a fresh pair with identical source and target
+        pcases.append((b"s1\ns2\ns3\n", b"x\ns1\ns2\n", []))            # targets equal to earlier source lines
+        pcases.append((b"k\tx\nk\nq\tk\n", b"1\n2\n3\n", ["-f", "1"]))      # -p with a field key, ragged rows
         pcases.append((b"a\nb", b"c\nd\n", []))
         pcases.append((z16 + b"\nq\n" + z16 + b"\n", b"1\n2\n3\n", []))
         pcases.append((b"1\n2\n3\n", z16 + b"\nq\n" + z16 + b"\n", []))
@@ -302,7 +370,8 @@ def main(argv):
             pres.append((st, o0, o1))
             l0, l1 = py_records(d0), py_records(d1)
             c.count((d0, d1), nontrivial=len(l0) > 1, bucket="parallel/" + ("balanced" if len(l0) == len(l1) else "in1-longer" if len(l1) > len(l0) else "in1-shorter"))
-            desc = {"in0_hex": d0[:3000].hex(), "in1_hex": d1[:3000].hex(), "how": "bin/dedupe -p in0 in1 out0 out1"}
+            desc = {"in0_hex": d0[:3000].hex(), "in1_hex": d1[:3000].hex(), "args": args, "how": "bin/dedupe %s -p in0 in1 out0 out1" % " ".join(args)}
+            kf = cut_key(args[args.index("-f") + 1], b"\t") if "-f" in args else (lambda l: l)
             if len(l0) == len(l1):
                 if st != 0 or o0 is None or o1 is None:
                     c.violation("parallel-exit: status %s on balanced input: %s" % (st, err[-200:]), dict(desc, status=str(st)))
@@ -317,30 +386,37 @@ def main(argv):
                     it = iter(pairs_in)
                     if not all(any(p == q for q in it) for p in zip(r0, r1)):
                         why = "an emitted pair is not an input pair in input order"
-                    elif len(set(r0)) != len(r0) or len(set(r1)) != len(r1):
-                        why = "an output repeats a line"
+                    elif len(set(map(kf, r0))) != len(r0) or len(set(map(kf, r1))) != len(r1):
+                        why = "an output repeats a line (key)"
                     else:
                         seen0, seen1, kept = set(), set(), set(zip(r0, r1))
                         for a, b in pairs_in:
-                            if a not in seen0 and b not in seen1 and (a, b) not in kept:
-                                why = "the pair (%r, %r), both of whose sides never occurred before, was dropped" % (a[:30], b[:30])
+                            if kf(a) not in seen0 and kf(b) not in seen1 and (a, b) not in kept:
+                                why = "the pair (%r, %r), both of whose sides never occurred before on their own side, was dropped" % (a[:30], b[:30])
                                 break
-                            seen0.add(a)
-                            seen1.add(b)
+                            seen0.add(kf(a))
+                            seen1.add(kf(b))
                 if why:
                     c.violation("parallel: " + why, dict(desc, out0_hex=(o0 or b"")[:3000].hex(), out1_hex=(o1 or b"")[:3000].hex()))
         if drv is not None:
             # keys through the harness, then the model of the 4-file loop
             rc, rr0, _ = run_lines(drv, ["R " + hexd(d0) for d0, _, _ in pcases], timeout=300)
             rc, rr1, _ = run_lines(drv, ["R " + hexd(d1) for _, d1, _ in pcases], timeout=300)
-            k0 = run_lines_robust(hx, ["K - 09 " + r for r in rr0], timeout=300)
-            k1 = run_lines_robust(hx, ["K - 09 " + r for r in rr1], timeout=300)
+            pspec = [(a[a.index("-f") + 1] if "-f" in a else "-") for _, _, a in pcases]
+            k0 = run_lines_robust(hx, ["K %s 09 %s" % (sp, r) for sp, r in zip(pspec, rr0)], timeout=300)
+            k1 = run_lines_robust(hx, ["K %s 09 %s" % (sp, r) for sp, r in zip(pspec, rr1)], timeout=300)
             pl = []
             for (d0, d1, _), a, b in zip(pcases, k0, k1):
                 a = [] if a == "-" else a.split()
                 b = [] if b == "-" else b.split()
                 pl.append("P %s %s %d %s" % (hexd(d0), hexd(d1), len(a), " ".join(a + b)))
+            # ... and the complete -p model with its own keys
+            pf = ["PF %s 09 %s %s" % ((a[a.index("-f") + 1] if "-f" in a else "1-").encode().hex(), hexd(d0), hexd(d1)) for d0, d1, a in pcases]
+            rc, pfo, _ = run_lines(drv, pf, timeout=900)
             rc, pm, e4 = run_lines(drv, pl, timeout=900)
+            if len(pfo) == len(pm) and pfo != pm:
+                j = next(x for x in range(len(pm)) if pm[x] != pfo[x])
+                c.broken.append("complete -p model (own Murmur keys) and key-fed -p model disagree on in0=%r in1=%r: %s vs %s" % (pcases[j][0][:60], pcases[j][1][:60], pfo[j][:100], pm[j][:100]))
             if len(pm) != len(pcases):
                 c.broken.append("C01 driver P failed: %s" % e4[-300:])
             else:
